@@ -112,11 +112,14 @@ theorem C04_closed_channel_ends (s : St) (c : Nat) (ch : Chan) (dl : Option Nat)
   · intro it hit; simp [step, hc, ha, hit, hack]
   · intro hn; simp [step, hc, ha, hn, hclosed, hack]
 
-/-- Unbind: the request is written, then the write side is shut down and the sink closed -/
+/-- Unbind: the request is written, then the write side is shut down and the sink closed.  (`hsk`: a write can
+only succeed while the sink is open, i.e. no earlier Unbind has been written; see `C04_after_unbind_no_request_is_sent`
+for what happens to a request taken after that.) -/
 theorem C04_unbind_closes (s : St) (i : Nat) (rest : List Nat) (o : Op) (hr : s.drv = .running)
-    (hq : s.opQ = i :: rest) (ho : s.ops[i]? = some o) (hk : o.kind = .unbind) (hin : s.inUse.contains o.id = true) :
+    (hq : s.opQ = i :: rest) (ho : s.ops[i]? = some o) (hk : o.kind = .unbind) (hin : s.inUse.contains o.id = true)
+    (hsk : s.sinkClosed = false) :
     ∃ s', step s (.drvOp true) = some (s', .none) ∧ s'.sinkClosed = true ∧ s'.wire = s.wire ++ [(o.id, .unbind)] := by
-  simp only [step, hr, hq, ho, hk, hin]
+  simp only [step, hr, hq, ho, hk, hin, hsk]
   simp
 
 /-! ### non-vacuity (tests): two pending operations and a search, then the server disappears -/
